@@ -38,6 +38,16 @@ CHECKS = {
    note="Trusted: as C03; peer readiness is an oracle; tokio Notify semantics (notify_waiters wakes exactly the existing Notified futures) is an assumption taken from the tokio docs. Two genuine defects were found and repaired by fix: commits.",
    technique="Coq proof: invariants and exact rotation arithmetic by induction over histories; small-step interleaving model of the Notify race; schedule-point correspondence",
    design="6/C13"),
+ "C15": dict(
+   text="Coq proofs over a transition model of the socket core's ShutdownCoordinator (Running/Lingering/CleaningPipes/Finished, abstract clock, pipe-emptiness inputs) composed with the session's reaction to a stop request and with the C01 data path and the peer's engine: a bounded LINGER d ends the shutdown at the first maintenance tick at or after t0+d (before t0+d+P for tick spacing P) for every queue content, LINGER 0 finishes inside initiate_core_shutdown, LINGER -1 waits exactly for empty pipes; for every LINGER and every schedule (session stopped at any point, any write/read segmentation) what the peer's recv() returns is a prefix of what send() accepted, each message whole (engine lemma: any prefix of a valid stream + EOF delivers the first k messages). 'LINGER -1 transmits everything' is refuted for the code (witnesses: a message in the EgressBuffer, a message still in the pipe - the session reacts to the bus event itself) and proved outside that class. Tie: op scripts on the real coordinator / initiate_core_shutdown / check_and_advance_linger through a facade with scripted pipes on a 40 ms clock grid; real PUSH->PULL pairs over tcp/ipc/inproc for LINGER {-1,0,1,50,500,5000} x queue depth x receiver pacing x close/term/handle drop.",
+   note="Trusted: as C01; Instant::now() is not injectable (clock grid with retry); how many messages get through before the session stops is scheduler dependent (D, partial). One genuine defect recorded as a known finding (LINGER is not honoured over tcp/ipc).",
+   technique="Coq proof: coordinator invariants and deadline arithmetic (lia), invariant of the composed system by induction over schedules, reuse of the engine prefix-monotonicity; facade scripts + real-socket scenarios",
+   design="6/C15"),
+ "C16": dict(
+   text="Coq proofs: the context WaitGroup counts exactly the actors that hold an ActorDropGuard for every interleaving of spawns, first polls, waive/set_error, exits, aborts and panics (each exit path decrements once, the zero-count branch is unreachable); count = live actors exactly when no spawned task awaits its first poll (refuted witness otherwise); WaitGroup::wait composed with those events sees the guard count, never loses its wake-up and has returned once all guards are dropped; the shutdown state machine reaches Finished from every reachable state for every LINGER and phases only move forward; a transcribed table of (socket type, operation, first check, first await, who wakes it) is complete and every direct operation on a closed socket fails at once, mailbox operations outside one window (refuted inside), every blocked operation except REQ send without a peer is released. Tie: scripts over the real ActorDropGuard/WaitGroup (guards in aborted / panicking / unstarted tasks); ~200 histories on real sockets (ops on closed sockets for all 8 types, racing mailbox commands, blocked recv/send, connect retries, silent handshakes, close/term injected at every call boundary of 4 socket-pair scripts over tcp/ipc/inproc) with latencies, live-actor count, alive tasks, registered sockets/names, re-bind, panics.",
+   note="Trusted: as C13 (tokio Notify semantics); the operations table was transcribed by reading the code and is exercised row by row; bounded time is checked against LINGER + 2/2.5 s and 'promptly' as 500 ms on a loaded machine; scheduler starvation is outside the model. Five genuine defects recorded as known findings (undrained mailbox, REQ send never woken, term before first poll, session in handshake ignores stop, session leaked by a connection set up during shutdown).",
+   technique="Coq proof: counting invariant by induction over lifecycle event interleavings, simulation into the WaitGroup::wait small-step model, finite table by vm_compute + forallb_forall, coordinator progress; guard-script and real-socket history correspondence",
+   design="6/C16"),
  "C17": dict(
    text="Coq proofs: full arithmetic of the reconnect back-off for all (base, max, attempts) incl. u32/Duration saturation (first delay, at most geometric growth, monotone, capped by max, success resets, no wrap), and fault isolation over a transition model of the socket core's event handling (any sequence of connection faults keeps the socket Running and other endpoints untouched; retries scheduled with exactly the back-off delay), with refuted witnesses where the code shuts the whole socket down. Tie: histories on the real ReconnectState; 15 stack scenarios injecting faults next to a healthy connection; measured reconnect pacing.",
    note="Trusted: as C03; the Err-to-loop decision table of the core was transcribed by reading the code; Instant::now() cannot be injected. Three genuine defects recorded as known findings (reconnect race, event-bus lag x2), one repaired (inproc refusal shut the binder down).",
@@ -75,7 +85,7 @@ CHECKS = {
    design="6/C18"),
  "C10": dict(
    text="Coq proofs over a small-step model of REQ and REP cut at the code's lock scopes and await points, for every number of tasks, every program and EVERY schedule (induction over schedules): the commit trace of successful calls is accepted by the alternation automaton (send, recv, send, ... on REQ; recv, send, ... on REP; with the code's reset events), a call refused by its opening state check changes nothing, every REP reply is addressed with the routing prefix and pipe of the request returned by the immediately preceding successful recv. Tie: schedule points between state check and state update in the real req_socket.rs / rep_socket.rs; real REQ/REP sockets with scripted ROUTER/DEALER peers; every call future polled by hand so that one token advances one task from point to point; all 2-task (thorough: 3-task) interleavings of every call kind and call orders up to length 3 (5) compared row by row with the model; 4-worker stress as failing-input search.",
-   note="Trusted: as C03; one poll of select! is atomic; tokio Notify semantics; SNDTIMEO, closing sockets and full pipes are not modelled. The check-then-act races found on the real code were repaired by a fix: commit (in-flight guard); see known_findings.json.",
+   note="Trusted: as C03; one poll of select! is atomic; tokio Notify semantics; SNDTIMEO, closing sockets and full pipes are not modelled. The check-then-act races found on the real code are recorded as known findings (the in-flight-guard repair made an existing test spin and was withdrawn); see known_findings.json.",
    technique="Coq proof: invariant over all interleavings of a small-step model with a ghost commit trace; schedule-point replay correspondence (exhaustive for 2-3 concurrent calls)",
    design="6/C10"),
 }
